@@ -130,8 +130,14 @@ pub fn eval_from_bytes_bitcoin(bytes: &[u8], version_id: u8) -> EvaluatedScript 
 
     // For OP_RETURN and provably unspendable scripts there is no point in parsing the address
     if script.is_op_return() {
-        // OP_RETURN 13 <data>
-        let data = String::from_utf8(script.to_bytes().into_iter().skip(2).collect());
+        // OP_RETURN <push opcode> <data>: the payload is what the push carries. The push
+        // opcode occupies 1 byte for direct pushes but 2, 3 or 5 bytes for OP_PUSHDATA1/2/4.
+        let mut instructions = script.instructions().skip(1);
+        let payload = match (instructions.next(), instructions.next()) {
+            (Some(Ok(Instruction::PushBytes(bytes))), None) => bytes.as_bytes().to_vec(),
+            _ => script.to_bytes().into_iter().skip(2).collect(),
+        };
+        let data = String::from_utf8(payload);
         let pattern = ScriptPattern::OpReturn(data.unwrap_or_else(|_| String::from("")));
         return EvaluatedScript::new(None, pattern);
     } else if is_provable_unspendable(script) {
